@@ -6,6 +6,8 @@ vc: OffsetOperandStub.encode + fn + fixup_label (8-bit signed branches, 6-bit SO
 """
 import z3
 from contracts.common import *  # noqa
+from contracts import structure
+from contracts.structure import *  # noqa
 from contracts import common, insn, c01
 from contracts.insn import *  # noqa
 from pyvc import driver
@@ -46,6 +48,8 @@ def units(tier):
     for name, fn, kw in deferred_c.all_units():
         if name.startswith("poly"):
             us.append((name, fn, kw))
+    # whole programs: the statement holds wherever a statement stands (repeat body, included / linked file, any block) - contracts/structure.py
+    us += structure.units()
     return us
 
 
@@ -199,6 +203,9 @@ def canary(eng):
 
 
 def replay(o, tree):
+    r_ = structure.replay(o, tree)
+    if r_ is not None:
+        return r_
     cfg = o.get("cfg") or {}
     w = o.get("witness") or {}
     if str(cfg.get("kind", "")).startswith("poly") or cfg.get("kind") in ("rac", "repeat") or o.get("unit", "").startswith(".repeat"):
